@@ -1055,6 +1055,43 @@ pub fn run(out_prefix: &str, shards: usize, family: &str, seed: u64, scale: usiz
                     });
                 }
             }
+            // nested / overlapping ASCII patterns (an occurrence strictly inside another one, shared
+            // prefixes and suffixes, duplicates, the empty pattern): the splice must follow the
+            // iterator's choice under every match kind
+            let mut nested_lists: Vec<Pats> = vec![
+                vec![b"abcd".to_vec(), b"bc".to_vec()],
+                vec![b"bc".to_vec(), b"abcd".to_vec()],
+                vec![b"abcde".to_vec(), b"c".to_vec(), b"bcd".to_vec()],
+                vec![b"ab".to_vec(), b"abc".to_vec(), b"c".to_vec(), vec![]],
+            ];
+            for _ in 0..(10 * scale) {
+                nested_lists.push(gen::random_pats_over(&mut rg, b"abc", 5, 5, true));
+            }
+            for (li, pats) in nested_lists.iter().enumerate() {
+                for &mk in &f.mks {
+                    let c = Ctx::new(pats, mk, REPRS_ALL[li % REPRS_ALL.len()]);
+                    let rep: Vec<String> = (0..pats.len()).map(|k| format!("<{}>", k)).collect();
+                    let repb: Vec<Vec<u8>> = rep.iter().map(|x| x.as_bytes().to_vec()).collect();
+                    let mut hays: Vec<Vec<u8>> = vec![b"xabcdx abcd".to_vec(), b"abcde".to_vec(), b"cabcabc".to_vec()];
+                    for _ in 0..5 {
+                        hays.push(gen::random_hay(&mut rg, pats, false, 24));
+                    }
+                    with_ctx(&mut out, &mut stats, &c, &mut |r, s| {
+                        for h in &hays {
+                            ev_replace_all_bytes(r, s, h, &repb);
+                            for stop in 0..=2 {
+                                ev_replace_bytes(r, s, h, &repb, stop);
+                            }
+                            ev_replace_infallible(r, s, h, &repb);
+                            if let Ok(hs) = std::str::from_utf8(h) {
+                                ev_replace_str(r, s, hs, &rep, 0, true);
+                                ev_replace_str(r, s, hs, &rep, 1, false);
+                            }
+                            r.flush(h, (0, h.len()));
+                        }
+                    });
+                }
+            }
             // random: multi-byte characters split by byte patterns, empty pattern, ci
             let chars = ["a", "b", "\u{e9}", "\u{20ac}", "\u{1F600}", "Z", "\u{df}"];
             for i in 0..(40 * scale) {
